@@ -72,6 +72,9 @@ ASSUMPTIONS = [
     "float occurs in input or output) is not a violation; generators make constant arithmetic "
     "exact by construction (constant denominators are powers of two), the share of cases "
     "accepted by tolerance is reported as label 'float-rounding'",
+    "a rewrite that raises an ArithmeticError on an input that is undefined in every environment "
+    "looked at (1/0 or 0**-1 outside any conditional) is not judged (label "
+    "'undefined-input:rewrite-raises'); where the input evaluates somewhere it is a failure",
     "a 'constant operand' of a folded sum/product is a number (non-Expression) operand",
     "terms of an expansion are the operands of its top-level sum(s); a term's coefficient and "
     "monomial are read off its exact polynomial value",
@@ -251,12 +254,38 @@ def _numerically_close(a, b, conv):
 
 # {{{ value preservation
 
-def _call(res, name, thunk, what):
+def _defined_somewhere(e):
+    """The input has a value in at least one environment we look at (rational trees: as a
+    rational function, i.e. at a generic point)."""
+    if _is_rational_tree(e):
+        try:
+            Converter()(e)
+        except ZeroDivisionError:
+            return False
+        except NotRational:
+            pass
+        else:
+            return True
+    for _, env in _box(e):
+        try:
+            if exact_eval(e, env)[0] == "val":
+                return True
+        except RefSkip:
+            continue
+    return False
+
+
+def _call(res, name, thunk, what, e=None):
     try:
         return True, thunk()
     except RecursionError:
         raise
     except Exception as exc:
+        if isinstance(exc, ArithmeticError) and e is not None and not _defined_somewhere(e):
+            # the plain computation is undefined everywhere we look (1/0, 0**-1 outside any
+            # conditional): raising its arithmetic error early is not judged
+            res.label("undefined-input:rewrite-raises")
+            return False, None
         res.fail(f"{name}:raised:{exc_site(exc)}",
                  f"{name}({what}) raised {type(exc).__name__}: {exc}")
         return False, None
@@ -422,7 +451,7 @@ def check_flatten(spec):
     res = Result()
     e = _expr_of(spec)
     _common(res, spec, e)
-    ok, out = _call(res, "flatten", lambda: pymbolic.flatten(e), repr(e)[:300])
+    ok, out = _call(res, "flatten", lambda: pymbolic.flatten(e), repr(e)[:300], e)
     if ok:
         defined = check_value(res, "flatten", e, out)
         shape_flatten(res, "flatten", out)
@@ -437,7 +466,7 @@ def _check_folder(spec, name, cls, products):
     res = Result()
     e = _expr_of(spec)
     _common(res, spec, e)
-    ok, out = _call(res, name, lambda: cls()(e), repr(e)[:300])
+    ok, out = _call(res, name, lambda: cls()(e), repr(e)[:300], e)
     if ok:
         defined = check_value(res, name, e, out)
         shape_fold(res, name, out, products)
@@ -558,7 +587,7 @@ def check_collect(spec):
     name = "collect"
     ok, out = _call(res, name,
                     lambda: TermCollector(pset)(e) if params else TermCollector()(e),
-                    f"{e!r}, parameters={params}")
+                    f"{e!r}, parameters={params}", e)
     if not ok:
         return res
     defined = check_value(res, name, e, out)
@@ -648,7 +677,7 @@ def check_expand(spec):
         raise HarnessError("params must be a list of names")
     name, fn = _expander(mode, params)
     _mixed_label(res, spec["expr"])
-    ok, out = _call(res, name, lambda: fn(e), repr(e)[:300])
+    ok, out = _call(res, name, lambda: fn(e), repr(e)[:300], e)
     if not ok:
         return res
     defined = check_value(res, name, e, out)
@@ -801,7 +830,7 @@ def check_helpers(spec):
     e = cls(tuple(terms))
     for t in spec["terms"]:
         _mixed_label(res, t)
-    ok, out = _call(res, name, lambda: fn(list(terms)), repr(terms)[:300])
+    ok, out = _call(res, name, lambda: fn(list(terms)), repr(terms)[:300], e)
     if not ok:
         return res
     defined = check_value(res, name, e, out)
